@@ -524,6 +524,17 @@ def r3_import_failure_path(ctx):
                                          "all", "Exception", "BaseException"),
                               h, f"except {caught} -> ModelImportError",
                               "handler does not cover import failures")
+            # every way out of the handler is the documented error
+            other = [x for x in walk_no_nested(h) if isinstance(x, ast.Raise)
+                     and (x.exc is None or "ModelImportError" not in
+                          norm(x.exc))]
+            for x in other:
+                ctx.fail(x, f"handler re-raises {norm(x)[:40]}",
+                         "the import-failure handler lets the original "
+                         "exception escape on some path (e.g. a missing "
+                         "dependency of the model file) instead of raising "
+                         "the documented ModelImportError")
+
     ctx.check(handler_raises, fn, "handler raises ModelImportError",
               "no handler converts an import failure into ModelImportError")
     # (c) pairing: sys.path.insert(.., X) ... sys.path.remove(X) on all exits
